@@ -166,6 +166,9 @@ func (g *gemExtension) init(input string) error {
 	}
 	// Trim trailing zeros.
 	for i := len(elements) - 1; i >= 0; i-- {
+		if elements[i].str != "0" {
+			break // Only the zeros at the end go.
+		}
 		if elements[i].str == "0" {
 			elements = elements[:i]
 		}
